@@ -17,6 +17,20 @@ STORE_STUB = {
 }
 
 CHECKS = {
+    "C10": {
+        "level": "exploration",
+        "budget": {"quick": 75, "thorough": 1200},
+        "rule": ("one evaluation = one input (generated tree / file pair / signature database, a pure function of the corpus seed) and one command (check with or without scan, diff, "
+                 "scan exact or fuzzy, JSON or Pebble backend) executed 3-4 times inside a synctest bubble: a reference execution (GOMAXPROCS=1, FIFO worker release, identity "
+                 "map order, fresh pooled state) and tape-driven executions that vary the release order of the per-file workers, GOMAXPROCS in {1,2,4,16}, the iteration order of "
+                 "every map range in repository code and the pooled canonicaliser handed to each acquisition; outputs must be byte-identical. Non-trivial = at least one scheduling "
+                 "choice point or non-identity map order; distinct = distinct (input, command, options, schedule traces)."),
+        "jobs": [{"engine": "clisim", "bin": "cli", "test": "TestVerifC10", "cfg": {}, "cpu": 4}],
+        "assumptions": ["map iteration and goroutines inside dependencies (x/tools, go/types, Pebble) are not steered, only sampled by repetition"],
+        "real_vs_stub": {"code_under_test": "real (internal/cli, pkg/diff, pkg/analysis, pkg/detection, storage backends; instrumented R1,R2)",
+                         "go_packages_loader": "real (go list child process, SSA builder)", "worker_scheduling": "simulated (synctest bubble + park points in the FileSystem seam and the pool)",
+                         "map_iteration_in_repo_code": "simulated (R1)", "sync.Pool": "simulated (R2)", "disk": "real temp tree behind the simulated FileSystem seam"},
+    },
     "C11": {
         "level": "exploration",
         "budget": {"quick": 45, "thorough": 900},
@@ -118,11 +132,17 @@ NOT_APPLICABLE = {
     "C20": "path-refusal is a pure function of a path spelling and a static symlink layout; " + PURE,
     # claimed in DESIGN.md, harness not finished yet (moved to checks as each lands):
     "C01": "PENDING: fpsim harness (pooled canonicaliser + map-order + concurrent callers) not yet built in this revision",
-    "C10": "PENDING: clisim harness not yet built in this revision",
     "C16": "PENDING: clisim fault-injection harness not yet built in this revision",
 }
 
 MANIFEST_TEXT = {
+    "C10": {
+        "engine": "clisim",
+        "technique": "deterministic simulation: synctest bubble with a tape-driven release order of worker goroutines, controlled map-iteration order (AST-instrumented) and simulated pool; byte equality of reports across schedules",
+        "design_ref": "DESIGN.md §3 C10",
+        "level_text": ("Seeded search over worker schedules, GOMAXPROCS, map-iteration orders and pool reuse for generated inputs; every command is executed several times and all outputs must be byte-identical to a clean sequential reference execution."),
+        "level_note": "Trusts: the bubble scheduler releasing one goroutine at a time; nondeterminism inside dependencies is only sampled.",
+    },
     "C11": {
         "engine": "storesim",
         "technique": "deterministic simulation: tape-driven cooperative scheduler over real goroutines parked at every Pebble call and lock operation, linearizability of scans checked against the recorded sequence of committed states; plus race-detector stress",
